@@ -16,6 +16,10 @@ part of the property is excluded any more.
 -/
 namespace LunarVerif.C02
 
+/-- a GET and a POST on path /x without the header -/
+def txG : Tx := ⟨false, false, false⟩
+def txP : Tx := ⟨true, false, false⟩
+
 /-- The invariant at the end of every history. -/
 theorem inv_history (cfg : Cfg) (hwf : cfg.wf = true) (events : List Event) :
     Inv cfg (final cfg (S.init cfg) events) :=
@@ -41,10 +45,10 @@ theorem members_le_max_run (cfg : Cfg) (events : List Event) (q : Nat) :
 /-- The bound is about admitted transactions: an admitted request holds a member in every concurrent quota
     its limiters consulted (so "admitted and still holding" ≤ set size ≤ max), and no quota ever holds two
     members of one transaction. -/
-theorem admitted_holds_slot (cfg : Cfg) (hwf : cfg.wf = true) (events : List Event) (r : Nat) (post : Bool)
-    (h : (reqEvent cfg (final cfg (S.init cfg) events) r post).2 = .admitted) (q : Nat) (hq : q ∈ cfg.concPath) :
-    holdsSlot r ((reqEvent cfg (final cfg (S.init cfg) events) r post).1.members q) = true :=
-  admitted_holds cfg hwf _ r post (inv_history cfg hwf events).jq h q hq
+theorem admitted_holds_slot (cfg : Cfg) (hwf : cfg.wf = true) (events : List Event) (r : Nat) (tx : Tx)
+    (h : (reqEvent cfg (final cfg (S.init cfg) events) r tx).2 = .admitted) (q : Nat) (hq : q ∈ cfg.concPath) :
+    holdsSlot r ((reqEvent cfg (final cfg (S.init cfg) events) r tx).1.members q) = true :=
+  admitted_holds cfg hwf _ r tx (inv_history cfg hwf events).jq h q hq
 
 theorem one_slot_per_transaction (cfg : Cfg) (hwf : cfg.wf = true) (events : List Event) (q : Nat) :
     (((final cfg (S.init cfg) events).members q).map (·.req)).Nodup :=
@@ -62,25 +66,29 @@ theorem released_at_most_once (cfg : Cfg) (s : S) (h : Reach cfg s) (q : Nat) (m
 
 /-- Response: exactly `r`'s members leave, from every concurrent quota; everything else stays, in order. -/
 theorem released_on_response (cfg : Cfg) (hwf : cfg.wf = true) (events : List Event) (r : Nat)
-    (q : Nat) (hc : cfg.isConc q = true) :
-    (respEvent cfg (final cfg (S.init cfg) events) r).members q =
+    (tx : Tx) (q : Nat) (hc : cfg.isConc q = true) :
+    (respEvent cfg (final cfg (S.init cfg) events) r tx).members q =
       others r ((final cfg (S.init cfg) events).members q) ∧
-    holdsSlot r ((respEvent cfg (final cfg (S.init cfg) events) r).members q) = false := by
-  have h := endFlows_exact cfg hwf _ r (inv_history cfg hwf events).jq q hc
+    holdsSlot r ((respEvent cfg (final cfg (S.init cfg) events) r tx).members q) = false := by
+  have h := endFlows_exact cfg hwf _ r tx (inv_history cfg hwf events).jq ((inv_history cfg hwf events).held r) q hc
   exact ⟨h, holds_eq_of_mem_others r _ _ h⟩
 
 /-- Early answer / refusal by the gateway: `r` holds no slot afterwards, in any concurrent quota. -/
 theorem released_on_early_response (cfg : Cfg) (hwf : cfg.wf = true) (events : List Event)
-    (r : Nat) (post : Bool)
-    (hv : (reqEvent cfg (final cfg (S.init cfg) events) r post).2 = .refused ∨
-          (reqEvent cfg (final cfg (S.init cfg) events) r post).2 = .early)
+    (r : Nat) (tx : Tx)
+    (hv : (reqEvent cfg (final cfg (S.init cfg) events) r tx).2 = .refused ∨
+          (reqEvent cfg (final cfg (S.init cfg) events) r tx).2 = .early)
     (q : Nat) (hc : cfg.isConc q = true) :
-    holdsSlot r ((reqEvent cfg (final cfg (S.init cfg) events) r post).1.members q) = false := by
+    holdsSlot r ((reqEvent cfg (final cfg (S.init cfg) events) r tx).1.members q) = false := by
   have hI := inv_history cfg hwf events
-  rw [reqEvent_released cfg _ r post hv]
-  have hJD : ∀ q', JQ (drop cfg (incPhase cfg (final cfg (S.init cfg) events) r).1 r) q' := fun q' =>
-    ((hI.jq q').inc (incPhase_rel cfg hwf _ r q').1).dec (drop_rel cfg hwf _ r q').1
-  exact holds_eq_of_mem_others r _ _ (endFlows_exact cfg hwf _ r hJD q hc)
+  rw [reqEvent_released cfg _ r tx hv]
+  have hIM := inv_incPhase cfg hwf _ r tx hI
+  have hJD : ∀ q', JQ (drop cfg (incPhase cfg (final cfg (S.init cfg) events) r tx).1 r) q' := fun q' =>
+    (hIM.jq q').dec (drop_rel cfg hwf _ r q').1
+  have hHD : HeldR cfg r (drop cfg (incPhase cfg (final cfg (S.init cfg) events) r tx).1 r) := by
+    intro q' hc' hh
+    rw [drop_exact cfg hwf _ r hIM q' hc', holds_others_false] at hh; cases hh
+  exact holds_eq_of_mem_others r _ _ (endFlows_exact cfg hwf _ r tx hJD hHD q hc)
 
 /-- Proxy error (`Stream.OnError`): exactly `r`'s members leave, from every concurrent quota. -/
 theorem released_on_proxy_error (cfg : Cfg) (hwf : cfg.wf = true) (events : List Event) (r : Nat)
@@ -120,11 +128,11 @@ theorem released_by_gc_after_expiry (cfg : Cfg) (hwf : cfg.wf = true) (events : 
 /-- A request is refused only if some concurrent quota its limiters consulted is full: so when every such set
     has room — in particular once every transaction has ended and the sets are empty — a fresh probe is not
     refused. -/
-theorem quiescent_probe_admitted (cfg : Cfg) (hwf : cfg.wf = true) (events : List Event) (r : Nat) (post : Bool)
+theorem quiescent_probe_admitted (cfg : Cfg) (hwf : cfg.wf = true) (events : List Event) (r : Nat) (tx : Tx)
     (hroom : ∀ q ∈ cfg.concPath, ((final cfg (S.init cfg) events).members q).length < cfg.max q) :
-    (reqEvent cfg (final cfg (S.init cfg) events) r post).2 ≠ .refused := by
+    (reqEvent cfg (final cfg (S.init cfg) events) r tx).2 ≠ .refused := by
   intro h
-  obtain ⟨q, hq, hfull⟩ := refused_full cfg hwf _ r post h
+  obtain ⟨q, hq, hfull⟩ := refused_full cfg hwf _ r tx h
   have := hroom q hq
   omega
 
@@ -153,9 +161,9 @@ theorem quiescent_sets_empty (cfg : Cfg) (obs : List Obs) (h : holds cfg obs = t
     probe is not refused. -/
 theorem quiescent_history_probe_admitted (cfg : Cfg) (hwf : cfg.wf = true) (events : List Event)
     (hended : ∀ r, lastOpen r (run cfg (S.init cfg) events) false = false)
-    (hmax : ∀ q ∈ cfg.concPath, 0 < cfg.max q) (r : Nat) (post : Bool) :
-    (reqEvent cfg (final cfg (S.init cfg) events) r post).2 ≠ .refused := by
-  apply quiescent_probe_admitted cfg hwf events r post
+    (hmax : ∀ q ∈ cfg.concPath, 0 < cfg.max q) (r : Nat) (tx : Tx) :
+    (reqEvent cfg (final cfg (S.init cfg) events) r tx).2 ≠ .refused := by
+  apply quiescent_probe_admitted cfg hwf events r tx
   intro q hq
   have hc : cfg.isConc q = true := by
     obtain ⟨q0, _, hc0, hq'⟩ := mem_concPath cfg hwf q (List.contains_iff_mem.mpr hq)
@@ -233,72 +241,84 @@ theorem members_le_max_all_schedules (cfg : Cfg) (hwf : cfg.wf = true) (sched : 
 /-! ### Non-vacuity (and the former violation witnesses, now regressions) -/
 
 /-- one concurrent quota (max 1, expiry 11 incl. the dead-request delta, GC every 10); the flow answers POST -/
-def exC : Cfg := ⟨[⟨.conc, 1, 11, none⟩], [0], true, 0, 10⟩
+def exC : Cfg := ⟨[⟨.conc, 1, 11, none, .any⟩], [0], true, 0, 10⟩
 /-- child limiter (max 2) with a concurrent parent (max 1) -/
-def exPC : Cfg := ⟨[⟨.conc, 1, 21, none⟩, ⟨.conc, 2, 21, some 0⟩], [1], true, 0, 10⟩
+def exPC : Cfg := ⟨[⟨.conc, 1, 21, none, .any⟩, ⟨.conc, 2, 21, some 0, .any⟩], [1], true, 0, 10⟩
 /-- flow `Limiter(fixed q0) → Limiter(concurrent q1, max 1)` (F02a's set-up) -/
-def exFC : Cfg := ⟨[⟨.fixed, 0, 0, none⟩, ⟨.conc, 1, 21, none⟩], [0, 1], false, 0, 10⟩
+def exFC : Cfg := ⟨[⟨.fixed, 0, 0, none, .any⟩, ⟨.conc, 1, 21, none, .any⟩], [0, 1], false, 0, 10⟩
 /-- two independent concurrent quotas (max 1) on one filter, both limited by the flow (F02c's set-up) -/
-def exCC : Cfg := ⟨[⟨.conc, 1, 21, none⟩, ⟨.conc, 1, 21, none⟩], [0, 1], false, 0, 10⟩
+def exCC : Cfg := ⟨[⟨.conc, 1, 21, none, .any⟩, ⟨.conc, 1, 21, none, .any⟩], [0, 1], false, 0, 10⟩
 /-- fixed companion, then two concurrent quotas, all limited; the flow answers POST itself -/
-def exFCC : Cfg := ⟨[⟨.fixed, 0, 0, none⟩, ⟨.conc, 1, 21, none⟩, ⟨.conc, 1, 21, none⟩], [0, 1, 2], true, 0, 10⟩
+def exFCC : Cfg := ⟨[⟨.fixed, 0, 0, none, .any⟩, ⟨.conc, 1, 21, none, .any⟩, ⟨.conc, 1, 21, none, .any⟩], [0, 1, 2], true, 0, 10⟩
 /-- one concurrent quota, max 3, expiry 11, GC every 10 (F02b's set-up) -/
-def ex3 : Cfg := ⟨[⟨.conc, 3, 11, none⟩], [0], false, 0, 10⟩
+def ex3 : Cfg := ⟨[⟨.conc, 3, 11, none, .any⟩], [0], false, 0, 10⟩
 /-- child expires before its parent (F02d's set-up) -/
-def exGap : Cfg := ⟨[⟨.conc, 1, 31, none⟩, ⟨.conc, 1, 11, some 0⟩], [1], false, 0, 10⟩
+def exGap : Cfg := ⟨[⟨.conc, 1, 31, none, .any⟩, ⟨.conc, 1, 11, some 0, .any⟩], [1], false, 0, 10⟩
 
 example : exC.wf = true ∧ exPC.wf = true ∧ exFC.wf = true ∧ exCC.wf = true ∧ exFCC.wf = true ∧ ex3.wf = true ∧
     exGap.wf = true := by decide
 
 /-- The bound is reached and enforced: r1 admitted, r2 refused, the set holds one member. -/
-example : (run exC (S.init exC) [.req 1 false, .req 2 false]).map (·.verdict) = [.admitted, .refused] ∧
-    ((final exC (S.init exC) [.req 1 false, .req 2 false]).members 0).length = 1 := by decide
+example : (run exC (S.init exC) [.req 1 txG, .req 2 txG]).map (·.verdict) = [.admitted, .refused] ∧
+    ((final exC (S.init exC) [.req 1 txG, .req 2 txG]).members 0).length = 1 := by decide
 
 /-- adds / removals are really counted: after request + response one add, one removal, empty set. -/
-example : (final exC (S.init exC) [.req 1 false, .resp 1]).adds 0 ⟨11, 1⟩ = 1 ∧
-    (final exC (S.init exC) [.req 1 false, .resp 1]).rems 0 ⟨11, 1⟩ = 1 ∧
-    (final exC (S.init exC) [.req 1 false, .resp 1]).members 0 = [] := by decide
+example : (final exC (S.init exC) [.req 1 txG, .resp 1 txG]).adds 0 ⟨11, 1⟩ = 1 ∧
+    (final exC (S.init exC) [.req 1 txG, .resp 1 txG]).rems 0 ⟨11, 1⟩ = 1 ∧
+    (final exC (S.init exC) [.req 1 txG, .resp 1 txG]).members 0 = [] := by decide
 
 /-- `released_on_response`: `r` really holds slots (child and parent) before; (former F02c witness) with two
     concurrent quotas on one filter the response now frees both and the probe is admitted. -/
-example : holdsSlot 1 ((final exPC (S.init exPC) [.req 1 false]).members 0) = true ∧
-    holdsSlot 1 ((final exPC (S.init exPC) [.req 1 false]).members 1) = true ∧
-    (final exCC (S.init exCC) [.req 1 false, .resp 1]).members 0 = [] ∧
-    (reqEvent exCC (final exCC (S.init exCC) [.req 1 false, .resp 1]) 2 false).2 = .admitted := by decide
+example : holdsSlot 1 ((final exPC (S.init exPC) [.req 1 txG]).members 0) = true ∧
+    holdsSlot 1 ((final exPC (S.init exPC) [.req 1 txG]).members 1) = true ∧
+    (final exCC (S.init exCC) [.req 1 txG, .resp 1 txG]).members 0 = [] ∧
+    (reqEvent exCC (final exCC (S.init exCC) [.req 1 txG, .resp 1 txG]) 2 txG).2 = .admitted := by decide
+
+/-- child limiter whose own filter (method GET) is narrower than the flow's (F02f's set-up) -/
+def exNarrow : Cfg := ⟨[⟨.conc, 2, 21, none, .any⟩, ⟨.conc, 1, 21, some 0, .mGet⟩], [1], false, 0, 10⟩
+
+/-- `released_on_response` with a quota whose own filter does not match the transaction (former F02f witness): a POST is
+    admitted through the limiter although the child's system flows are selected for GET only (`sysDecsFor` lacks the
+    child); the response still frees child and parent, and the next POST is admitted. -/
+example : exNarrow.wf = true ∧ exNarrow.sysDecsFor txP = [0] ∧
+    holdsSlot 1 ((final exNarrow (S.init exNarrow) [.req 1 txP]).members 1) = true ∧
+    (final exNarrow (S.init exNarrow) [.req 1 txP, .resp 1 txP]).members 1 = [] ∧
+    (final exNarrow (S.init exNarrow) [.req 1 txP, .resp 1 txP]).members 0 = [] ∧
+    (reqEvent exNarrow (final exNarrow (S.init exNarrow) [.req 1 txP, .resp 1 txP]) 2 txP).2 = .admitted := by decide
 
 /-- `released_on_early_response`: a held transaction answered early by the flow; a refusal by the parent after the
     child admitted; (former F02c-early witness) nothing stays in q1. -/
-example : (reqEvent exC (final exC (S.init exC) [.req 1 false]) 1 true).2 = .early ∧
-    holdsSlot 1 ((final exC (S.init exC) [.req 1 false]).members 0) = true ∧
-    (reqEvent exPC (final exPC (S.init exPC) [.req 1 false]) 2 false).2 = .refused ∧
-    (reqEvent exFCC (S.init exFCC) 1 true).2 = .early ∧
-    (reqEvent exFCC (S.init exFCC) 1 true).1.members 1 = [] := by decide
+example : (reqEvent exC (final exC (S.init exC) [.req 1 txG]) 1 txP).2 = .early ∧
+    holdsSlot 1 ((final exC (S.init exC) [.req 1 txG]).members 0) = true ∧
+    (reqEvent exPC (final exPC (S.init exPC) [.req 1 txG]) 2 txG).2 = .refused ∧
+    (reqEvent exFCC (S.init exFCC) 1 txP).2 = .early ∧
+    (reqEvent exFCC (S.init exFCC) 1 txP).1.members 1 = [] := by decide
 
 /-- `released_on_proxy_error`: (former F02a witness) with the fixed quota touched first the proxy error now frees the
     concurrent slot and the probe is admitted; (former F02d case) the child's member expired and was collected, the
     parent's is still there, the proxy error frees it. -/
-example : holdsSlot 1 ((final exFC (S.init exFC) [.req 1 false]).members 1) = true ∧
-    (final exFC (S.init exFC) [.req 1 false, .err 1]).members 1 = [] ∧
-    (reqEvent exFC (final exFC (S.init exFC) [.req 1 false, .err 1]) 2 false).2 = .admitted ∧
-    (final exGap (S.init exGap) [.req 1 false, .adv 20]).members 1 = [] ∧
-    holdsSlot 1 ((final exGap (S.init exGap) [.req 1 false, .adv 20]).members 0) = true ∧
-    (final exGap (S.init exGap) [.req 1 false, .adv 20, .err 1]).members 0 = [] := by decide
+example : holdsSlot 1 ((final exFC (S.init exFC) [.req 1 txG]).members 1) = true ∧
+    (final exFC (S.init exFC) [.req 1 txG, .err 1]).members 1 = [] ∧
+    (reqEvent exFC (final exFC (S.init exFC) [.req 1 txG, .err 1]) 2 txG).2 = .admitted ∧
+    (final exGap (S.init exGap) [.req 1 txG, .adv 20]).members 1 = [] ∧
+    holdsSlot 1 ((final exGap (S.init exGap) [.req 1 txG, .adv 20]).members 0) = true ∧
+    (final exGap (S.init exGap) [.req 1 txG, .adv 20, .err 1]).members 0 = [] := by decide
 
 /-- GC theorems: (former F02b witness) three expired members, one GC instant passed (`dueCount = 1 + 1` ticks at 10
     and 20): all three are removed at once. -/
-example : dueCount (final ex3 (S.init ex3) [.req 1 false, .req 2 false, .req 3 false]).nextGC ex3.gc
-      ((final ex3 (S.init ex3) [.req 1 false, .req 2 false, .req 3 false]).now + 20) = 1 + 1 ∧
-    ((final ex3 (S.init ex3) [.req 1 false, .req 2 false, .req 3 false]).members 0).length = 3 ∧
-    (final ex3 (S.init ex3) [.req 1 false, .req 2 false, .req 3 false, .adv 20]).members 0 = [] := by decide
+example : dueCount (final ex3 (S.init ex3) [.req 1 txG, .req 2 txG, .req 3 txG]).nextGC ex3.gc
+      ((final ex3 (S.init ex3) [.req 1 txG, .req 2 txG, .req 3 txG]).now + 20) = 1 + 1 ∧
+    ((final ex3 (S.init ex3) [.req 1 txG, .req 2 txG, .req 3 txG]).members 0).length = 3 ∧
+    (final ex3 (S.init ex3) [.req 1 txG, .req 2 txG, .req 3 txG, .adv 20]).members 0 = [] := by decide
 
 /-- `quiescent_probe_admitted`: after request, response the set has room and the probe is admitted. -/
-example : (reqEvent exC (final exC (S.init exC) [.req 1 false, .resp 1]) 2 false).2 = .admitted := by decide
+example : (reqEvent exC (final exC (S.init exC) [.req 1 txG, .resp 1 txG]) 2 txG).2 = .admitted := by decide
 
 /-- `quiescent_sets_empty` / `quiescent_history_probe_admitted`: a history in which four transactions end in the four
     ways (response, early answer, proxy error, refusal) and none is left open; before the last event one is open. -/
 example : (∀ r ∈ [1, 2, 3, 4], lastOpen r (run exC (S.init exC)
-      [.req 1 false, .req 2 false, .resp 1, .req 2 true, .req 3 false, .err 3]) false = false) ∧
-    lastOpen 3 (run exC (S.init exC) [.req 1 false, .req 2 false, .resp 1, .req 2 true, .req 3 false]) false = true := by
+      [.req 1 txG, .req 2 txG, .resp 1 txG, .req 2 txP, .req 3 txG, .err 3]) false = false) ∧
+    lastOpen 3 (run exC (S.init exC) [.req 1 txG, .req 2 txG, .resp 1 txG, .req 2 txP, .req 3 txG]) false = true := by
   decide
 
 
@@ -308,7 +328,8 @@ example : (∀ r ∈ [1, 2, 3, 4], lastOpen r (run exC (S.init exC)
     empty, one add, one removal. -/
 def schedGcRace : List Ev :=
   [.spawnReq 0 1 false] ++ List.replicate 11 (.run 0) ++
-  [.spawnGc 1 0 ⟨11, 1⟩, .spawnResp 2 1, .run 2, .run 2, .run 1, .run 2, .run 2, .run 1, .run 2, .run 2]
+  [.spawnGc 1 0 ⟨11, 1⟩, .spawnResp 2 1, .run 2, .run 2, .run 1, .run 2, .run 2, .run 1, .run 2, .run 2] ++
+  List.replicate 6 (.run 2)
 
 example : ((grun exC (G.init exC) (schedGcRace.take 12)).s.members 0 = [⟨11, 1⟩]) ∧
     (grun exC (G.init exC) schedGcRace).s.members 0 = [] ∧
@@ -322,7 +343,8 @@ example : ((grun exC (G.init exC) (schedGcRace.take 12)).s.members 0 = [⟨11, 1
     either removes; one `SRem` removes, the other is a no-op; one removal in total. -/
 def schedRespErr : List Ev :=
   [.spawnReq 0 1 false] ++ List.replicate 11 (.run 0) ++
-  [.spawnResp 1 1, .spawnErr 2 1, .run 1, .run 2, .run 1, .run 2, .run 1, .run 2, .run 2, .run 1, .run 2, .run 1, .run 1]
+  [.spawnResp 1 1, .spawnErr 2 1, .run 1, .run 2, .run 1, .run 2, .run 1, .run 2, .run 2, .run 1, .run 2, .run 1, .run 1] ++
+  List.replicate 6 (.run 1)
 
 example : (grun exC (G.init exC) schedRespErr).s.members 0 = [] ∧
     ((grun exC (G.init exC) schedRespErr).th 1).map (fun t => (t.todo.length, t.loc.clr 0)) = some (0, true) ∧
